@@ -15,6 +15,9 @@ from axolotl.duplicatemessagexception import DuplicateMessageException
 from axolotl.invalidkeyidexception import InvalidKeyIdException
 from axolotl.nosessionexception import NoSessionException
 from axolotl.protocol.senderkeydistributionmessage import SenderKeyDistributionMessage
+from axolotl.invalidversionexception import InvalidVersionException
+from axolotl.legacymessageexception import LegacyMessageException
+from google.protobuf.message import DecodeError
 from axolotl.state.axolotlstore import AxolotlStore
 from yowsup.axolotl.store.sqlite.liteaxolotlstore import LiteAxolotlStore
 from yowsup.axolotl import exceptions
@@ -164,15 +167,16 @@ class AxolotlManager(object):
 
     def decrypt_pkmsg(self, senderid, data, unpad):
         logger.debug("decrypt_pkmsg(senderid=%s, data=(omitted), unpad=%s)" % (senderid, unpad))
-        pkmsg = PreKeyWhisperMessage(serialized=data)
         try:
+            # a damaged envelope must be reported like any other undecryptable message
+            pkmsg = PreKeyWhisperMessage(serialized=data)
             plaintext = self._get_session_cipher(senderid).decryptPkmsg(pkmsg)
             return self._unpad(plaintext) if unpad else plaintext
         except NoSessionException:
             raise exceptions.NoSessionException()
         except InvalidKeyIdException:
             raise exceptions.InvalidKeyIdException()
-        except InvalidMessageException:
+        except (InvalidMessageException, InvalidVersionException, LegacyMessageException, DecodeError):
             raise exceptions.InvalidMessageException()
         except DuplicateMessageException:
             raise exceptions.DuplicateMessageException()
@@ -180,8 +184,9 @@ class AxolotlManager(object):
 
     def decrypt_msg(self, senderid, data, unpad):
         logger.debug("decrypt_msg(senderid=%s, data=[omitted], unpad=%s)" % (senderid, unpad))
-        msg = WhisperMessage(serialized=data)
         try:
+            # a damaged envelope must be reported like any other undecryptable message
+            msg = WhisperMessage(serialized=data)
             plaintext = self._get_session_cipher(senderid).decryptMsg(msg)
 
             return self._unpad(plaintext) if unpad else plaintext
@@ -189,7 +194,7 @@ class AxolotlManager(object):
             raise exceptions.NoSessionException()
         except InvalidKeyIdException:
             raise exceptions.InvalidKeyIdException()
-        except InvalidMessageException:
+        except (InvalidMessageException, InvalidVersionException, LegacyMessageException, DecodeError):
             raise exceptions.InvalidMessageException()
         except DuplicateMessageException:
             raise exceptions.DuplicateMessageException()
